@@ -1156,10 +1156,11 @@ def run_inner(ctx, scale=1.0, only_oracle=False):
                 res.violations += v
                 res.count('data:identity-oracle')
                 ident_jobs.append((dat, top, bot))
-            if npairs % 7 == 3 and real[0] == 'ok' and s.convention != 3 and t.convention != 3 and inc_jobs \
+            if npairs % 7 == 3 and real[0] == 'ok' and s.convention != 3 and t.convention != 3 and inc_jobs and nvars <= 4 \
                     and (s.atmosphere_type, t.atmosphere_type) != (2, 1) \
                     and all(mulgrids.valid_blockname(b) for g in (s, t) for b in g.block_name_list):
-                # (names the incon reader rejects — convention 3, left-justified — are C13/C17's subject; 2 -> 1 fails in transfer_rocktypes_from)
+                # (names the incon reader rejects — convention 3, left-justified — and more than 4 variables per block read
+                # without num_variables are C13/C17's subject; 2 -> 1 fails in transfer_rocktypes_from)
                 res.violations += oracle_data_files(ctx, kind, s, t, dat, inc_jobs[0][0], real[1], real[2], res)
                 res.count('data:transfer_from with incon files')
             empty_maps = npairs % 4 == 0
